@@ -15,6 +15,7 @@ import numpy as np
 from mc import core
 
 PROPERTY = 'C05'
+GUARD = ['numqi.entangle', 'numqi.utils']  # argument-immutability oracle (mc.seams.ImmutabilityGuard)
 LEVEL = 'model_checking'
 RULE = ('state = separable density matrix reached by mix-in events from a pure product state of the local alphabets (key = rounded '
         'matrix); all event sequences up to the depth bound are enumerated; transition = evaluation of one criterion on one state; '
